@@ -173,7 +173,8 @@ impl super::Authorizer {
 
             for fact in &facts {
                 let fact = proto_fact_to_token_fact(fact)?;
-                //let fact = Fact::convert_from(&fact, &symbols)?.convert(&mut authorizer.symbols);
+                // dump() and the printers resolve the symbols of every fact of the world
+                crate::builder::Fact::convert_from(&fact, &authorizer.symbols)?;
                 authorizer.world.facts.insert(&origin, fact);
             }
         }
